@@ -16,6 +16,7 @@ being instantiated, nesting to any depth.
 import Rpft.Props.C02
 import Rpft.Lemmas.Sugar
 import Rpft.Compile
+import Rpft.Lemmas.CompileExits
 set_option linter.unusedSimpArgs false
 set_option linter.unusedVariables false
 namespace Rpft.Props.C03
@@ -91,6 +92,29 @@ structure BeginHdr where
   starting : Bool
   rowId : Str
   deriving DecidableEq, Repr
+
+/-! ### the block clause on the compiler model (node level) -/
+
+/-- **An edge that names a block leaves from the still-unconnected ordinary exits, never from a
+hard exit** — at the level of one node of the compiler model (`connect_loose_exits` of the node's
+exits, reached from `add_exit` of a block through `NodeGroup.connect_loose_exits`): the exits that
+lead nowhere are re-targeted to the edge's destination, every other exit keeps its destination
+(a hard exit stays a hard exit, an exit into a node stays there), and number and order of the exits
+are unchanged.  Which nodes of the block are visited is the group recursion of `Compile.connectLoose`
+(tied to the real parser by the exact comparison of C01; decided on the real code by the
+with/without-edge oracle). -/
+theorem block_edge_exits (n : Compile.NodeM) (d : Compile.Dest) :
+    (n.connectLoose d).exitDests = n.exitDests.map (Compile.fillLoose d) ∧
+    Compile.fillLoose d .hard = .hard ∧ (∀ u, Compile.fillLoose d (.node u) = .node u) ∧
+    Compile.fillLoose d .none = d :=
+  ⟨Compile.connectLoose_exitDests n d, Compile.fillLoose_hard d, Compile.fillLoose_node d,
+   Compile.fillLoose_none d⟩
+
+/-- …and afterwards the node has no loose exit left (so a second edge naming the block finds
+"no loose exit to connect to", as the real parser reports). -/
+theorem block_edge_consumes_loose (n : Compile.NodeM) (d : Compile.Dest) (hd : d ≠ .none) :
+    (n.connectLoose d).hasLoose = false := Compile.connectLoose_no_loose n d hd
+
 
 def toCompileEvent : Ev Compile.Row BeginHdr → Compile.Event
   | .row r => .row r
